@@ -495,6 +495,274 @@ theorem skelPieces_shape (ps : List Piece) : skelPieces (ps.map Piece.shape) = s
   | nil => rfl
   | cons p ps ih => cases p <;> simp [skelPieces, Piece.shape, Piece.skel, ih]
 
+/-! ### decimal numbers -/
+
+theorem digitChar_spec : ∀ k, k < 10 → isDig (digitChar k) = true ∧ digitVal (digitChar k) = k := by decide
+
+theorem natDigits_lt (n : Nat) (h : n < 10) : natDigits n = [digitChar n] := by
+  rw [natDigits]; simp [h]
+theorem natDigits_ge (n : Nat) (h : ¬ n < 10) : natDigits n = natDigits (n / 10) ++ [digitChar (n % 10)] := by
+  rw [natDigits]; simp [h]
+
+theorem natDigits_isDig (n : Nat) : ∀ c ∈ natDigits n, isDig c = true := by
+  induction n using Nat.strongRecOn with
+  | _ n ih =>
+    by_cases h : n < 10
+    · rw [natDigits_lt n h]; intro c hc; simp at hc; subst hc; exact (digitChar_spec n h).1
+    · rw [natDigits_ge n h]; intro c hc
+      simp only [List.mem_append, List.mem_singleton] at hc
+      rcases hc with hc | hc
+      · exact ih (n / 10) (by omega) c hc
+      · subst hc; exact (digitChar_spec (n % 10) (by omega)).1
+
+theorem natDigits_ne_nil (n : Nat) : natDigits n ≠ [] := by
+  by_cases h : n < 10
+  · rw [natDigits_lt n h]; simp
+  · rw [natDigits_ge n h]; simp
+
+def accum (a : Nat) (ds : Str) : Nat := ds.foldl (fun a c => a * 10 + digitVal c) a
+
+theorem accum_append (a : Nat) (x y : Str) : accum a (x ++ y) = accum (accum a x) y := by
+  simp [accum, List.foldl_append]
+
+theorem accum_natDigits (n : Nat) : accum 0 (natDigits n) = n := by
+  induction n using Nat.strongRecOn with
+  | _ n ih =>
+    by_cases h : n < 10
+    · rw [natDigits_lt n h]; simp [accum, (digitChar_spec n h).2]
+    · rw [natDigits_ge n h, accum_append, ih (n / 10) (by omega)]
+      simp [accum, (digitChar_spec (n % 10) (by omega)).2]; omega
+
+theorem accum_zeros (k : Nat) : accum 0 (List.replicate k '0') = 0 := by
+  induction k with
+  | zero => rfl
+  | succ k ih =>
+    rw [List.replicate_succ']
+    rw [accum_append, ih]; decide
+
+theorem accum_pad (k n : Nat) : accum 0 (pad k n) = n := by
+  rw [pad, accum_append, accum_zeros, accum_natDigits]
+
+theorem digitsVal_eq (ds : Str) : digitsVal ds = accum 0 ds := rfl
+
+theorem pad_isDig (k n : Nat) : ∀ c ∈ pad k n, isDig c = true := by
+  intro c hc
+  simp only [pad, List.mem_append, List.mem_replicate] at hc
+  rcases hc with ⟨_, rfl⟩ | hc
+  · decide
+  · exact natDigits_isDig n c hc
+
+theorem pad_ne_nil (k n : Nat) : pad k n ≠ [] := by
+  simp [pad, natDigits_ne_nil]
+
+theorem pad_zero (n : Nat) : pad 0 n = natDigits n := by simp [pad]
+
+theorem spanDigits_run (ds rest : Str) (hd : ∀ c ∈ ds, isDig c = true) (hr : ∀ c, rest.head? = some c → isDig c = false) :
+    spanDigits (ds ++ rest) = (ds, rest) := by
+  induction ds with
+  | nil =>
+    cases rest with
+    | nil => rfl
+    | cons c r => simp [spanDigits, hr c (by simp)]
+  | cons c ds ih =>
+    have hc := hd c (by simp)
+    simp [spanDigits, hc, ih (fun d hd' => hd d (by simp [hd']))]
+
+theorem lexNat_natDigits (n : Nat) (rest : Str) (hr : ∀ c, rest.head? = some c → isDig c = false) :
+    lexNat (natDigits n ++ rest) = some (n, rest) := by
+  simp [lexNat, spanDigits_run _ _ (natDigits_isDig n) hr, natDigits_ne_nil, digitsVal_eq, accum_natDigits]
+
+theorem natDigits_head_ne_minus (n : Nat) : ∃ c r, natDigits n = c :: r ∧ c ≠ '-' ∧ isDig c = true := by
+  cases h : natDigits n with
+  | nil => exact absurd h (natDigits_ne_nil n)
+  | cons c r =>
+    have hc : isDig c = true := natDigits_isDig n c (by simp [h])
+    refine ⟨c, r, rfl, ?_, hc⟩
+    intro e; subst e; exact absurd hc (by decide)
+
+/-! ### fields -/
+
+theorem fields_run (ds : Str) (hne : ds ≠ []) (hd : ∀ c ∈ ds, isDig c = true) (cur : Option Nat) (rest : Str) :
+    fields cur (ds ++ rest) = fields (some (accum (cur.getD 0) ds)) rest := by
+  induction ds generalizing cur with
+  | nil => exact absurd rfl hne
+  | cons c ds ih =>
+    have hc := hd c (by simp)
+    cases ds with
+    | nil => simp [fields, hc, accum]
+    | cons d ds' =>
+      have := ih (by simp) (fun x hx => hd x (by simp [hx])) (some (cur.getD 0 * 10 + digitVal c))
+      simp only [List.cons_append, fields, hc, if_true] at this ⊢
+      rw [this]; simp [accum]
+
+theorem fields_pad_sep (k n : Nat) (c : Char) (hc : isDig c = false) (rest : Str) :
+    fields none (pad k n ++ c :: rest) = n :: fields none rest := by
+  rw [fields_run _ (pad_ne_nil k n) (pad_isDig k n)]
+  simp [accum_pad, fields, hc]
+
+theorem fields_pad_end (k n : Nat) : fields none (pad k n) = [n] := by
+  have := fields_run _ (pad_ne_nil k n) (pad_isDig k n) none []
+  rw [List.append_nil] at this
+  rw [this]; simp [accum_pad, fields]
+
+/-! ### ISO dates and times read back -/
+
+theorem nd_minus : isDig '-' = false := by decide
+theorem nd_colon : isDig ':' = false := by decide
+theorem nd_space : isDig ' ' = false := by decide
+theorem nd_dot : isDig '.' = false := by decide
+
+theorem fields_dateStr_sep (x : PDate) (c : Char) (hc : isDig c = false) (rest : Str) :
+    fields none (dateStr x ++ c :: rest) = x.y :: x.m :: x.d :: fields none rest := by
+  simp only [dateStr, List.append_assoc, List.cons_append]
+  rw [fields_pad_sep _ _ _ nd_minus, fields_pad_sep _ _ _ nd_minus, fields_pad_sep _ _ _ hc]
+
+theorem parseDate_dateStr (x : PDate) : parseDate (dateStr x) = some x := by
+  simp only [parseDate, dateStr, List.append_assoc, List.cons_append]
+  rw [fields_pad_sep _ _ _ nd_minus, fields_pad_sep _ _ _ nd_minus, fields_pad_end]
+
+theorem fields_hmsStr_sep (t : PTime) (c : Char) (hc : isDig c = false) (rest : Str) :
+    fields none (hmsStr t ++ c :: rest) = t.h :: t.mi :: t.s :: fields none rest := by
+  simp only [hmsStr, List.append_assoc, List.cons_append]
+  rw [fields_pad_sep _ _ _ nd_colon, fields_pad_sep _ _ _ nd_colon, fields_pad_sep _ _ _ hc]
+
+theorem fields_hmsStr_end (t : PTime) : fields none (hmsStr t) = [t.h, t.mi, t.s] := by
+  simp only [hmsStr, List.append_assoc, List.cons_append]
+  rw [fields_pad_sep _ _ _ nd_colon, fields_pad_sep _ _ _ nd_colon, fields_pad_end]
+
+theorem parseTime_isoTime (t : PTime) : parseTime (isoTime t) = some t := by
+  by_cases h : t.us = 0
+  · simp only [parseTime, isoTime, h, if_true, fields_hmsStr_end]
+    cases t; simp_all
+  · simp only [parseTime, isoTime, h, if_false]
+    rw [fields_hmsStr_sep _ _ nd_dot, fields_pad_end]
+
+theorem parseTimestamp_timestampStr (x : PDate) (t : PTime) : parseTimestamp (timestampStr x t) = some (x, t) := by
+  simp only [parseTimestamp, timestampStr, List.append_assoc, List.cons_append]
+  rw [fields_dateStr_sep _ _ nd_space, fields_hmsStr_sep _ _ nd_dot, fields_pad_end]
+
+/-! ### intervals -/
+
+theorem fields_natDigits_sep (n : Nat) (c : Char) (hc : isDig c = false) (rest : Str) :
+    fields none (natDigits n ++ c :: rest) = n :: fields none rest := by
+  rw [← pad_zero, fields_pad_sep _ _ _ hc]
+
+theorem fields_natDigits_end (n : Nat) : fields none (natDigits n) = [n] := by
+  rw [← pad_zero, fields_pad_end]
+
+theorem intervalVal_hmsBody (T U : Nat) : intervalVal (hmsBody T U) = some (T * 1000000 + U) := by
+  by_cases hU : U = 0
+  · subst hU
+    simp only [intervalVal, hmsBody, ne_eq, not_true_eq_false, if_false, List.append_assoc, List.cons_append]
+    rw [fields_natDigits_sep _ _ nd_colon, fields_natDigits_sep _ _ nd_colon, fields_natDigits_end]
+    simp; omega
+  · simp only [intervalVal, hmsBody, ne_eq, hU, not_false_eq_true, if_true, List.append_assoc, List.cons_append]
+    rw [fields_natDigits_sep _ _ nd_colon, fields_natDigits_sep _ _ nd_colon, fields_natDigits_sep _ _ nd_dot, fields_pad_end]
+    simp; omega
+
+theorem hmsBody_head (T U : Nat) : ∃ c r, hmsBody T U = c :: r ∧ c ≠ '-' := by
+  obtain ⟨c, r, h, hne, _⟩ := natDigits_head_ne_minus (T / 60 / 60)
+  by_cases hU : U = 0
+  · exact ⟨c, r ++ ':' :: (natDigits (T / 60 % 60) ++ ':' :: natDigits (T % 60)), by simp [hmsBody, hU, h], hne⟩
+  · exact ⟨c, r ++ ':' :: (natDigits (T / 60 % 60) ++ ':' :: (natDigits (T % 60) ++ '.' :: pad 6 U)), by simp [hmsBody, hU, h], hne⟩
+
+theorem parseInterval_timedelta2str (td : PDelta) (hs : td.secs < 86400) (hu : td.us < 1000000) :
+    parseInterval (timedelta2str td) = some td.micros := by
+  by_cases hneg : td.days < 0
+  · by_cases hU : td.us = 0
+    · simp only [timedelta2str, hneg, if_true, hU, ne_eq, not_true_eq_false, if_false, parseInterval, intervalVal_hmsBody, Option.map_some]
+      simp only [PDelta.micros, hU]; congr 1; omega
+    · simp only [timedelta2str, hneg, if_true, hU, ne_eq, not_false_eq_true, parseInterval, intervalVal_hmsBody, Option.map_some]
+      simp only [PDelta.micros]; congr 1; omega
+  · obtain ⟨c, r, h, hne⟩ := hmsBody_head (td.days * 86400 + (td.secs : Int)).natAbs td.us
+    have hv := intervalVal_hmsBody (td.days * 86400 + (td.secs : Int)).natAbs td.us
+    simp only [timedelta2str, hneg, if_false]
+    rw [h] at hv ⊢
+    simp only [parseInterval, hne, if_false, hv, Option.map_some]
+    simp only [PDelta.micros]; congr 1; omega
+
+
+/-! ### safe characters of rendered numbers / intervals; `%` scanning of keyword text -/
+
+theorem isDig_safe (c : Char) (h : isDig c = true) : isQuote c = false ∧ c ≠ '%' ∧ c ≠ '\\' := by
+  refine ⟨?_, ?_, ?_⟩
+  · by_cases h1 : c = '\''
+    · subst h1; exact absurd h (by decide)
+    · by_cases h2 : c = '\x22'
+      · subst h2; exact absurd h (by decide)
+      · by_cases h3 : c = '`'
+        · subst h3; exact absurd h (by decide)
+        · simp [isQuote, h1, h2, h3]
+  · intro e; subst e; exact absurd h (by decide)
+  · intro e; subst e; exact absurd h (by decide)
+
+theorem intStr_safe (i : Int) : ∀ c ∈ intStr i, isQuote c = false ∧ c ≠ '%' ∧ c ≠ '\\' := by
+  intro c hc
+  unfold intStr at hc
+  split at hc
+  · simp only [List.mem_cons] at hc
+    rcases hc with rfl | hc
+    · decide
+    · exact isDig_safe c (natDigits_isDig _ c hc)
+  · exact isDig_safe c (natDigits_isDig _ c hc)
+
+theorem hmsBody_chars (T U : Nat) : ∀ c ∈ hmsBody T U, isDig c = true ∨ c = ':' ∨ c = '.' := by
+  intro c hc
+  by_cases hU : U = 0
+  · simp only [hmsBody, hU, ne_eq, not_true_eq_false, if_false, List.mem_append, List.mem_cons] at hc
+    rcases hc with (hc | rfl | hc) | rfl | hc
+    · exact Or.inl (natDigits_isDig _ c hc)
+    · exact Or.inr (Or.inl rfl)
+    · exact Or.inl (natDigits_isDig _ c hc)
+    · exact Or.inr (Or.inl rfl)
+    · exact Or.inl (natDigits_isDig _ c hc)
+  · simp only [hmsBody, hU, ne_eq, not_false_eq_true, if_true, List.mem_append, List.mem_cons] at hc
+    rcases hc with ((hc | rfl | hc) | rfl | hc) | rfl | hc
+    · exact Or.inl (natDigits_isDig _ c hc)
+    · exact Or.inr (Or.inl rfl)
+    · exact Or.inl (natDigits_isDig _ c hc)
+    · exact Or.inr (Or.inl rfl)
+    · exact Or.inl (natDigits_isDig _ c hc)
+    · exact Or.inr (Or.inr rfl)
+    · exact Or.inl (pad_isDig _ _ c hc)
+
+theorem timedelta2str_safe (td : PDelta) : ∀ c ∈ timedelta2str td, c ≠ '\'' ∧ c ≠ '%' ∧ c ≠ '\\' := by
+  have key : ∀ T U, ∀ c ∈ hmsBody T U, c ≠ '\'' ∧ c ≠ '%' ∧ c ≠ '\\' := by
+    intro T U c hc
+    rcases hmsBody_chars T U c hc with h | rfl | rfl
+    · have := isDig_safe c h
+      refine ⟨?_, this.2.1, this.2.2⟩
+      intro e; subst e; exact absurd this.1 (by decide)
+    · decide
+    · decide
+  intro c hc
+  unfold timedelta2str at hc
+  simp only at hc
+  split at hc
+  · split at hc
+    · simp only [List.mem_cons] at hc
+      rcases hc with rfl | hc
+      · decide
+      · exact key _ _ c hc
+    · simp only [List.mem_cons] at hc
+      rcases hc with rfl | hc
+      · decide
+      · exact key _ _ c hc
+  · exact key _ _ c hc
+
+theorem lits_append (a b : Str) : lits (a ++ b) = lits a ++ lits b := by simp [lits]
+
+/-- text without `%` passes the `%` scanner unchanged and leaves it in text mode -/
+theorem scanP_noPercent (t rest : Str) (h : '%' ∉ t) :
+    scanP .text (t ++ rest) = (scanP .text rest).map (lits t ++ ·) := by
+  induction t with
+  | nil => simp [lits]
+  | cons c t ih =>
+    simp only [List.mem_cons, not_or] at h
+    have hc : c ≠ '%' := fun e => h.1 e.symm
+    simp only [List.cons_append, scanP_lit_cons c hc, ih h.2]
+    cases scanP .text rest <;> simp [lits]
+
 /-! ### hexadecimal blobs -/
 
 theorem unhex_hex (n : Nat) (h : n < 16) : unhexDigit (hexDigit n) = some n := by
